@@ -6,6 +6,7 @@ KANI_UNITS = {
   'pstr': {
     'crate': 'samlang-heap',
     'module': 'verif_kani',
+    'timeout_s': {'quick': 300, 'thorough': 3000},
     'splices': [('crates/samlang-heap/src/lib.rs', 'kx/harness/samlang-heap/lib.rs', 'verif_kani')],
     'functions': ['PStrPrivateRepr::from_id', 'PStrPrivateRepr::as_heap_id', 'PStrPrivateRepr::as_inline_str',
                   'PStrPrivateRepr::from_str_opt', 'PStrPrivateRepr::from_string', 'PStrPrivateRepr::eq',
@@ -14,6 +15,7 @@ KANI_UNITS = {
     'harnesses': {
       'pstr_from_id_roundtrip': {'tier': 'quick', 'complete': True},
       'pstr_inline_roundtrip': {'tier': 'quick', 'complete': True},
+      'pstr_inline_roundtrip_exact_utf8': {'tier': 'thorough', 'complete': True},
       'pstr_from_string_agrees': {'tier': 'quick', 'complete': True},
       'pstr_eq_inline_inline': {'tier': 'quick', 'complete': True},
       'pstr_eq_inline_id': {'tier': 'quick', 'complete': True},
@@ -168,7 +170,7 @@ PROPERTIES = {
              'lexer scanners; panic-freedom of constant folding and trip-count analysis; parser / checker / printer not covered',
   },
   'C01': {
-    'verus': ['enumlayout', 'oparms'],
+    'verus': ['enumlayout', 'oparms', 'wasmlower'],
     'verus_only': {'oparms': ['wasm_binary_arm']},
     'kani': ['wasmops'],
     'level': 'proof',
@@ -177,7 +179,7 @@ PROPERTIES = {
              'specialisation pass (incl. the variant loop that uses the predicate) and the runtime library are not covered',
   },
   'C04': {
-    'verus': ['opsem', 'oparms'],
+    'verus': ['opsem', 'oparms', 'wasmlower'],
     'kani': ['wasmops'],
     'level': 'proof',
     'scope': 'one kernel only: per operator, the TypeScript template and the WebAssembly instruction emitted by the two real '
@@ -275,6 +277,11 @@ STANDING_ASSUMPTIONS = {
   'tsops': [
     'CBMC 6.11 / Kani 0.68; std::hash::RandomState::new stubbed; operands are two one-letter variables typed int or Str',
     'the expected templates are compared as text; their JavaScript meaning is stated in Verus unit opsem',
+  ],
+  'wasmlower': [
+    'R14: the Binary arm of LoweringManager::lower_stmt is extracted as a block; LoweringManager is opaque: lower_expr yields an uninterpreted lowered operand, set(n, t, v) = LocalSet(n, v) (its real result)',
+    'is_string_expr / is_reference_expr are uninterpreted predicates of the operand; mir::FunctionName::STR_EQ is a named constant',
+    'wasm::InlineInstruction / Instruction / Type are extracted verbatim; names and LIR types inside them are opaque',
   ],
   'oparms': [
     'operands are abstract (the text they print as): Expression::pretty_print / InlineInstruction::pretty_print append an uninterpreted text; Heap, SymbolTable, PStr opaque (R7)',
